@@ -241,6 +241,12 @@ def r_workload(ctx):
                 nonneg = True
             else:
                 other.append(body)
+        extra = [o for o in other if canon_atom(o) is not None and set(canon_atom(o)[1].coef) == {dur}]
+        for o in extra:
+            ctx.violation("R-FUNDEF", where, f"extra bound on the overlap variable: {show(o)[:120]}",
+                          f"the overlap variable is additionally constrained by {show(o)[:160]}, which its definition "
+                          f"max(0, min(end,hi) - max(start,lo)) does not imply", location)
+        other = [o for o in other if o not in extra]
         if other:
             raise P.AnalysisError(f"R-FUNDEF: {where}: assertion about the overlap variable not understood: {show(other[0])[:200]}")
         pts = [s, e, lo, hi]
